@@ -164,8 +164,7 @@ def oracle(case, ctx):
         return
     d0 = objs.canon_state(s0)
     if c13.malformed(fn, p, d0):
-        ctx.ev.count(fn + ':malformed(C13)')
-        return
+        ctx.ev.count(fn + ':malformed(C13)')  # reported by C13; winnability is decided regardless
     good, bad = goal_cells(fn, d0)
     how = 'model_plan'
     if fn == 'dynamic_obstacles' and p.get('num_obstacles', 0) > 0:
